@@ -11,7 +11,7 @@ from ..refs import contentline as R2, fold as R3, tree
 ID = "C10"
 RULE = ("API programs from G3 (all component kinds, zoned values of several zones so that add_missing_timezones has work, parameters, repeated properties, nested "
         "unknown components): (1) to_ical() twice gives identical bytes and leaves the deep observation (R8 + parameters of every value object by identity + "
-        "errors) unchanged, also for values stored as ready-made value objects of 14 classes, and identical bytes twice after the .dt of a stored value object was reassigned, and identical bytes and observation after unrelated use of the library on other objects (the prelude with a fresh token); (2) sorted=True: up to 24 sampled permutations of "
+        "errors) unchanged, also for values stored as ready-made value objects of 14 classes (through add() and by item assignment, e.g. an absolute TRIGGER) and for the tree parsed from the model's text, and identical bytes twice after the .dt of a stored value object was reassigned, and identical bytes and observation after unrelated use of the library on other objects (the prelude with a fresh token); (2) sorted=True: up to 24 sampled permutations of "
         "the insertion history of distinct properties and parameters (at every nesting level) give identical bytes, while repeated properties and "
         "subcomponents keep insertion order; (3) sorted=False: the property-name sequence of every component equals first-insertion order; (4) the "
         "line sequence is a balanced BEGIN/END nesting; (5) the same program run in fresh subprocesses with PYTHONHASHSEED in {0,1,2,3,4211} (thorough: 16 "
@@ -170,6 +170,14 @@ def check_case(ctx, case):
                     ("X-RAW-VURI", P.vUri("http://example.com/raw")), ("X-RAW-VCALADDRESS", P.vCalAddress("mailto:raw@example.com")), ("X-RAW-VFLOAT", P.vFloat(1.5)),
                     ("X-RAW-VBOOLEAN", P.vBoolean(True)), ("X-RAW-VUTCOFFSET", P.vUTCOffset(_tdelta(hours=1))), ("X-RAW-VRECUR", P.vRecur({"FREQ": "DAILY", "COUNT": 3}))):
         ev.add(nm, obj)
+    # values stored by item assignment, past add() and the setters - also under names add() would treat specially
+    raw_alarm = icalendar.Alarm()
+    raw_alarm["TRIGGER"] = vDDDTypes(vals.py(("dt", 2024, 5, 6, 7, 8, 9, "UTC")))
+    raw_alarm["ACTION"] = P.vText("DISPLAY")
+    raw_alarm["DURATION"] = vDDDTypes(_tdelta(minutes=5))
+    ev.add_component(raw_alarm)
+    ev["X-RAW-ITEM-DATE"] = vDDDTypes(_date(2024, 5, 6))
+    ev["X-RAW-ITEM-LIST"] = [P.vText("one"), P.vText("two")]
     before = deep_obs(cal)
     s1 = cal.to_ical()
     after = deep_obs(cal)
@@ -195,6 +203,27 @@ def check_case(ctx, case):
                  expected=s1.split(b"\r\n")[k][:200] if k >= 0 else "unchanged tree")
         return
     ctx.count("purity-checks")
+    # ---- the same for a tree that came out of the parser (incl. lines another producer would write: an absolute TRIGGER without VALUE)
+    from ..gen.model import emit
+    try:
+        text = emit(model).replace("END:VCALENDAR", "BEGIN:VEVENT\r\nUID:verif-raw\r\nDTSTART:20240506T070809Z\r\nBEGIN:VALARM\r\nACTION:DISPLAY\r\n"
+                                   "TRIGGER:20240506T060809Z\r\nEND:VALARM\r\nEND:VEVENT\r\nEND:VCALENDAR", 1)
+        parsed = icalendar.Calendar.from_ical(text)
+    except ValueError:
+        parsed = None
+        ctx.count("parsed-purity-skipped")
+    if parsed is not None:
+        pb = deep_obs(parsed)
+        p1 = parsed.to_ical()
+        pa = deep_obs(parsed)
+        if pb != pa:
+            d = tree.diff(pb[0], pa[0]) or next((f"{a} != {b}" for a, b in zip(pb[1], pa[1]) if a != b), "extra differs")
+            ctx.fail("to_ical-changes-parsed-tree", observed=d[:400], expected="tree observably unchanged")
+            return
+        if parsed.to_ical() != p1:
+            ctx.fail("not-deterministic", observed="second to_ical() of a parsed tree differs", expected="identical bytes")
+            return
+        ctx.count("parsed-purity-checks")
     # ---- a value object whose .dt was reassigned (another zone / UTC / floating) after it was stored: whatever is written, it is written twice
     for flag in (True, False):
         mut = build(model)
